@@ -1070,10 +1070,10 @@ Lemma close_entry_spec dbg be fmt64 asize body bs :
     bs = il ++ body ++ pad /\
     write_initial_length fmt64 be (len (body ++ pad)) = Ok il /\ len il = ilen_size fmt64 /\
     all_nop pad = true /\ len pad < asize /\
-    (word_size fmt64 + len (body ++ pad)) mod asize = 0.
+    (ilen_size fmt64 + len (body ++ pad)) mod asize = 0.
 Proof.
   intros Hu Hp H. unfold close_entry in H.
-  destruct (write_nop dbg (word_size fmt64 + len body) asize) as [pad| | |] eqn:En; try discriminate.
+  destruct (write_nop dbg (ilen_size fmt64 + len body) asize) as [pad| | |] eqn:En; try discriminate.
   cbn [bind] in H.
   destruct (write_initial_length fmt64 be (len (body ++ pad))) as [il| | |] eqn:Ei; try discriminate.
   cbn [bind] in H. injection H as <-.
@@ -1097,7 +1097,7 @@ Lemma cie_write_layout dbg be eh pos (c : cie) bs :
     len il = ilen_size (c_fmt64 c) /\
     write_insns dbg (c_daf c) (c_insns c) = Ok insns /\
     all_nop pad = true /\ len pad < c_asize c /\
-    (word_size (c_fmt64 c) + len (hdr ++ insns ++ pad)) mod c_asize c = 0.
+    (ilen_size (c_fmt64 c) + len (hdr ++ insns ++ pad)) mod c_asize c = 0.
 Proof.
   intros Hu Hp H. unfold cie_write in H.
   destruct (if eh then negb (c_version c =? 1)
@@ -1124,11 +1124,12 @@ Lemma fde_write_layout dbg be eh pos coff (c : cie) (f : fde) bs :
     len il = ilen_size (c_fmt64 c) /\
     write_fde_insns dbg be (c_caf c) (c_daf c) 0 (f_insns f) = Ok insns /\
     all_nop pad = true /\ len pad < c_asize c /\
-    (word_size (c_fmt64 c) + len (hdr ++ insns ++ pad)) mod c_asize c = 0.
+    (ilen_size (c_fmt64 c) + len (hdr ++ insns ++ pad)) mod c_asize c = 0.
 Proof.
   intros Hu Hp H. unfold fde_write in H.
   apply bind_ok_inv in H. destruct H as (ptr & _ & H).
   apply bind_ok_inv in H. destruct H as (addrs & _ & H).
+  destruct (negb (Bool.eqb (is_some (f_lsda f)) (is_some (c_lsda_enc c)))); [discriminate|].
   apply bind_ok_inv in H. destruct H as (augdata & _ & H).
   apply bind_ok_inv in H. destruct H as (insns & Hins & H).
   apply (close_entry_spec dbg be _ _ _ _ Hu Hp) in H.
@@ -1136,27 +1137,6 @@ Proof.
   exists il, (ptr ++ addrs ++ augdata), insns, pad.
   rewrite <- !app_assoc in *.
   repeat split; assumption.
-Qed.
-
-(* (4 or 12) + length against the address size *)
-Lemma total_size_aligned fmt64 asize L :
-  is_u8 asize = true -> is_pow2 asize = true ->
-  (word_size fmt64 + L) mod asize = 0 ->
-  (fmt64 = false \/ asize <= 4) -> (ilen_size fmt64 + L) mod asize = 0.
-Proof.
-  intros Hu Hp H Hk. pose proof (pow2_u8_cases asize Hu Hp) as Hc.
-  destruct fmt64; cbn [word_size ilen_size] in *; [|exact H].
-  destruct Hk as [Hk|Hk]; [discriminate|].
-  destruct Hc as [->|[->|[->|[->|[->|[->|[->| ->]]]]]]]; lia.
-Qed.
-
-Lemma total_size_misaligned asize L :
-  is_u8 asize = true -> is_pow2 asize = true -> 8 <= asize ->
-  (word_size true + L) mod asize = 0 -> (ilen_size true + L) mod asize = 4.
-Proof.
-  intros Hu Hp Hk H. pose proof (pow2_u8_cases asize Hu Hp) as Hc.
-  cbn [word_size ilen_size] in *.
-  destruct Hc as [->|[->|[->|[->|[->|[->|[->| ->]]]]]]]; lia.
 Qed.
 
 (* the area after the header decodes to the instructions followed by nops only *)
@@ -1651,10 +1631,9 @@ Definition fde_wf (f : fde) : bool :=
   && match f_lsda f with Some a => addr_wf a | None => true end
   && forallb fde_insn_wf (f_insns f).
 
-(* the FDE's LSDA is present exactly when the CIE has an encoding for it (only checked, by a
-   debug_assert, when the CIE has an augmentation at all) *)
+(* the FDE's LSDA is present exactly when the CIE has an encoding for it (otherwise InvalidAddress) *)
 Definition lsda_ok (c : cie) (f : fde) : bool :=
-  negb (has_augmentation c) || Bool.eqb (is_some (f_lsda f)) (is_some (c_lsda_enc c)).
+  Bool.eqb (is_some (f_lsda f)) (is_some (c_lsda_enc c)).
 
 Lemma write_uleb_fuel_len : forall f v bs, write_uleb_fuel f v = Ok bs -> (length bs <= f)%nat.
 Proof.
@@ -1813,7 +1792,7 @@ Lemma close_entry_np dbg be fmt64 asize body :
 Proof.
   intros Hu Hp. unfold close_entry.
   apply bind_not_panic.
-  - apply write_nop_np; [assumption|assumption|]. destruct fmt64; cbn [word_size]; lia.
+  - apply write_nop_np; [assumption|assumption|]. destruct fmt64; cbn [ilen_size]; lia.
   - intros pad _. apply bind_not_panic; [apply write_initial_length_np|]. intros il _. discriminate.
 Qed.
 
@@ -1855,10 +1834,10 @@ Qed.
 
 Lemma fde_write_np dbg be eh pos coff c f :
   cie_wf c = true -> is_pow2 (c_asize c) = true -> fde_wf f = true ->
-  coff <= pos -> (dbg = true -> lsda_ok c f = true) ->
+  coff <= pos ->
   fde_write dbg be eh pos coff c f <> Panic.
 Proof.
-  intros Hwf Hp Hf Hcoff Hlsda. unfold cie_wf in Hwf. split_wf Hwf.
+  intros Hwf Hp Hf Hcoff. unfold cie_wf in Hwf. split_wf Hwf.
   rename W into Hinsns, W0 into Hfe, W1 into Hle, W2 into Hpe, W3 into Hra, W4 into Hdaf, W5 into Hcaf, W6 into Hasz.
   unfold fde_wf in Hf. split_wf Hf. rename W into Hfi, W0 into Hfl, W1 into Hflen.
   unfold fde_write.
@@ -1875,16 +1854,14 @@ Proof.
     - apply bind_not_panic; [apply write_address_np|]. intros a _.
       apply bind_not_panic; [apply write_udata_np|]. intros l _. discriminate. }
   intros addrs _.
+  destruct (negb (Bool.eqb (is_some (f_lsda f)) (is_some (c_lsda_enc c)))); [discriminate|].
   apply bind_not_panic.
   { destruct (has_augmentation c) eqn:Ea; [|discriminate].
-    destruct (dbg && negb (Bool.eqb (is_some (f_lsda f)) (is_some (c_lsda_enc c)))) eqn:E.
-    - apply andb_true_iff in E. destruct E as [-> E]. specialize (Hlsda eq_refl).
-      unfold lsda_ok in Hlsda. rewrite Ea in Hlsda. cbn [negb orb] in Hlsda. rewrite Hlsda in E. discriminate.
-    - destruct (f_lsda f) as [a|]; [destruct (c_lsda_enc c) as [e|]|].
-      + apply bind_not_panic; [apply write_eh_pointer_np; exact Hfl|].
-        intros d Hd. apply write_eh_pointer_len in Hd. apply with_aug_len_np. lia.
-      + cbn [bind]. apply with_aug_len_np. cbn [length]. lia.
-      + cbn [bind]. apply with_aug_len_np. cbn [length]. lia. }
+    destruct (f_lsda f) as [a|]; [destruct (c_lsda_enc c) as [e|]|].
+    + apply bind_not_panic; [apply write_eh_pointer_np; exact Hfl|].
+      intros d Hd. apply write_eh_pointer_len in Hd. apply with_aug_len_np. lia.
+    + cbn [bind]. apply with_aug_len_np. cbn [length]. lia.
+    + cbn [bind]. apply with_aug_len_np. cbn [length]. lia. }
   intros augdata _.
   apply bind_not_panic.
   { apply write_fde_insns_np; [exact Hfi|exact Hcaf|exact Hdaf|reflexivity]. }
@@ -1898,13 +1875,12 @@ Definition offs_le (offs : list (option N)) (pos : N) : Prop :=
 
 Lemma write_fdes_np dbg be eh cies : forall fdes offs pos,
   Forall (fun c => cie_wf c = true /\ is_pow2 (c_asize c) = true) cies ->
-  Forall (fun p => fde_wf (snd p) = true /\
-                   exists c, nth_error cies (fst p) = Some c /\ (dbg = true -> lsda_ok c (snd p) = true)) fdes ->
+  Forall (fun p => fde_wf (snd p) = true /\ exists c, nth_error cies (fst p) = Some c) fdes ->
   length offs = length cies -> offs_le offs pos ->
   write_fdes dbg be eh cies offs pos fdes <> Panic.
 Proof.
   induction fdes as [|[idx f] rest IH]; intros offs pos Hc Hf Hlen Hle; cbn [write_fdes]; [discriminate|].
-  inversion Hf as [|x l Hx Hrest]; subst. cbn [fst snd] in Hx. destruct Hx as (Hfw & c & Hnth & Hls).
+  inversion Hf as [|x l Hx Hrest]; subst. cbn [fst snd] in Hx. destruct Hx as (Hfw & c & Hnth).
   rewrite Hnth. cbn [unwrap bind].
   assert (Hcw : cie_wf c = true /\ is_pow2 (c_asize c) = true).
   { rewrite Forall_forall in Hc. apply Hc. eapply nth_error_In. exact Hnth. }
@@ -1936,9 +1912,7 @@ Qed.
 
 Lemma write_table_np dbg be eh pos t :
   Forall (fun c => cie_wf c = true /\ is_pow2 (c_asize c) = true) (t_cies t) ->
-  Forall (fun p => fde_wf (snd p) = true /\
-                   exists c, nth_error (t_cies t) (fst p) = Some c /\ (dbg = true -> lsda_ok c (snd p) = true))
-         (t_fdes t) ->
+  Forall (fun p => fde_wf (snd p) = true /\ exists c, nth_error (t_cies t) (fst p) = Some c) (t_fdes t) ->
   write_table dbg be eh pos t <> Panic.
 Proof.
   intros Hc Hf. unfold write_table. apply write_fdes_np; try assumption.
@@ -2098,8 +2072,7 @@ Lemma entry_layout_cie_pack : forall (dbg be eh : bool) (pos : N) (c : cie) bs,
   exists il hdr area,
     bs = il ++ hdr ++ area /\
     write_initial_length (c_fmt64 c) be (len (hdr ++ area)) = Ok il /\ len il = ilen_size (c_fmt64 c) /\
-    (word_size (c_fmt64 c) + len (hdr ++ area)) mod c_asize c = 0 /\
-    ((c_fmt64 c = false \/ c_asize c <= 4) -> len bs mod c_asize c = 0) /\
+    len bs mod c_asize c = 0 /\
     exists ds n, decode_all be area = Some (ds ++ repeat DNop n) /\ N.of_nat n < c_asize c /\
                  map (sem (c_caf c) (c_daf c)) ds = map MInsn (c_insns c).
 Proof.
@@ -2108,7 +2081,7 @@ Proof.
   destruct (cie_write_layout dbg be eh pos c bs Hu Hp H)
     as (il & hdr & insns & pad & -> & Hil & Hlen & Hw & Hnop & Hpad & Hmod).
   exists il, hdr, (insns ++ pad). repeat split; try assumption.
-  - intros Hk. rewrite len_app, Hlen. apply total_size_aligned; assumption.
+  - rewrite len_app, Hlen. exact Hmod.
   - destruct (write_insns_decodes_ext dbg be (c_caf c) (c_daf c) (c_insns c) insns Hins Hdaf Hw) as (ds & Hds & Hm).
     exists ds, (length pad). split; [|split; [exact Hpad|exact Hm]].
     apply Hds. apply all_nop_decodes. exact Hnop.
@@ -2123,8 +2096,7 @@ Lemma entry_layout_fde_pack : forall (dbg be eh : bool) (pos coff : N) (c : cie)
   exists il hdr area,
     bs = il ++ hdr ++ area /\
     write_initial_length (c_fmt64 c) be (len (hdr ++ area)) = Ok il /\ len il = ilen_size (c_fmt64 c) /\
-    (word_size (c_fmt64 c) + len (hdr ++ area)) mod c_asize c = 0 /\
-    ((c_fmt64 c = false \/ c_asize c <= 4) -> len bs mod c_asize c = 0) /\
+    len bs mod c_asize c = 0 /\
     exists ds n, decode_all be area = Some (ds ++ repeat DNop n) /\ N.of_nat n < c_asize c /\
                  locate 0 (map (sem (c_caf c) (c_daf c)) (ds ++ repeat DNop n)) = f_insns f.
 Proof.
@@ -2134,24 +2106,12 @@ Proof.
   destruct (fde_write_layout dbg be eh pos coff c f bs Hu Hp H)
     as (il & hdr & insns & pad & -> & Hil & Hlen & Hw & Hnop & Hpad & Hmod).
   exists il, hdr, (insns ++ pad). repeat split; try assumption.
-  - intros Hk. rewrite len_app, Hlen. apply total_size_aligned; assumption.
+  - rewrite len_app, Hlen. exact Hmod.
   - destruct (write_fde_insns_decodes_ext dbg be (c_caf c) (c_daf c) (f_insns f) 0 insns Hins Hcaf Hdaf eq_refl Hw)
       as (ds & Hds & Hm).
     exists ds, (length pad). split; [|split; [exact Hpad|]].
     + apply Hds. apply all_nop_decodes. exact Hnop.
     + rewrite map_app, locate_nops. exact Hm.
-Qed.
-
-(* in the 64-bit format with an address size of 8 or more the entry size is 4 modulo the address size *)
-Lemma entry_layout_dwarf64_pack : forall (dbg be eh : bool) (pos : N) (c : cie) bs,
-  cie_wf c = true -> is_pow2 (c_asize c) = true -> c_fmt64 c = true -> 8 <= c_asize c ->
-  cie_write dbg be eh pos c = Ok bs -> len bs mod c_asize c = 4.
-Proof.
-  intros dbg be eh pos c bs Hwf Hp Hf Ha H.
-  destruct (cie_wf_parts c Hwf) as (Hu & _).
-  destruct (cie_write_layout dbg be eh pos c bs Hu Hp H)
-    as (il & hdr & insns & pad & -> & Hil & Hlen & Hw & Hnop & Hpad & Hmod).
-  rewrite Hf in *. rewrite len_app, Hlen. apply total_size_misaligned; assumption.
 Qed.
 
 (* per-tile read-back: every tile of a written table is a well-formed entry whose instruction area decodes
@@ -2184,7 +2144,7 @@ Proof.
     { rewrite Forall_forall in Hc. apply Hc. eapply nth_error_In. exact Hn. }
     destruct Hcw as [Hcw Hcp].
     destruct (entry_layout_cie_pack dbg be eh pos c b Hcw Hcp Hw)
-      as (il & hdr & area & -> & _ & Hlen & _ & _ & ds & n & Hd & Hn' & Hm).
+      as (il & hdr & area & -> & _ & Hlen & _ & ds & n & Hd & Hn' & Hm).
     cbn [tile_reads_back]. exists c, il, hdr, area, ds, n. auto 10.
   - destruct H as (idx & f & c & coff & Hk & Hn & _ & Hw).
     assert (Hcw : cie_wf c = true /\ is_pow2 (c_asize c) = true).
@@ -2193,7 +2153,7 @@ Proof.
     assert (Hfw : fde_wf f = true).
     { rewrite Forall_forall in Hf. apply (Hf (idx, f)). eapply nth_error_In. exact Hk. }
     destruct (entry_layout_fde_pack dbg be eh pos coff c f b Hcw Hcp Hfw Hw)
-      as (il & hdr & area & -> & _ & Hlen & _ & _ & ds & n & Hd & Hn' & Hm).
+      as (il & hdr & area & -> & _ & Hlen & _ & ds & n & Hd & Hn' & Hm).
     cbn [tile_reads_back]. exists idx, f, c, il, hdr, area, ds, n. auto 12.
 Qed.
 
@@ -2783,7 +2743,6 @@ Lemma fde_header_reads dbg be eh pos coff (c : cie) (f : fde) bs :
   cie_wf c = true -> fde_wf f = true ->
   (c_asize c = 1 \/ c_asize c = 2 \/ c_asize c = 4 \/ c_asize c = 8) ->
   pos + len bs < 18446744073709551616 -> coff <= pos ->
-  lsda_ok c f = true ->
   fde_write dbg be eh pos coff c f = Ok bs ->
   exists il body insns pad,
     bs = il ++ body /\ len il = ilen_size (c_fmt64 c) /\
@@ -2793,7 +2752,7 @@ Lemma fde_header_reads dbg be eh pos coff (c : cie) (f : fde) bs :
                    (pos + ilen_size (c_fmt64 c)) body
       = Some (fde_fields_of c f coff, insns ++ pad).
 Proof.
-  intros Hwf Hfwf Hasz Hfit Hcoff Hls H.
+  intros Hwf Hfwf Hasz Hfit Hcoff H.
   destruct (asz_cases_pow2 _ Hasz) as [Hu8 Hp2].
   pose proof Hwf as Hwf0. unfold cie_wf in Hwf. split_wf Hwf.
   rename W into Hinsns, W0 into Hfe, W1 into Hle, W2 into Hpe, W3 into Hra, W4 into Hdaf, W5 into Hcaf, W6 into Hasz8.
@@ -2803,6 +2762,8 @@ Proof.
   set (base := pos + ilen_size (c_fmt64 c)) in *.
   apply bind_ok_inv in H. destruct H as (ptr & Hptr & H).
   apply bind_ok_inv in H. destruct H as (addrs & Haddrs & H).
+  destruct (Bool.eqb (is_some (f_lsda f)) (is_some (c_lsda_enc c))) eqn:Hls; cbn [negb] in H; [|discriminate].
+  apply bool_eqb_iff in Hls.
   apply bind_ok_inv in H. destruct H as (augdata & Haug & H).
   apply bind_ok_inv in H. destruct H as (insns & Hins & H).
   apply (close_entry_spec dbg be _ _ _ _ Hu8 Hp2) in H.
@@ -2865,9 +2826,7 @@ Proof.
   rewrite Saddr. cbn [omap fst snd].
   (* augmentation data *)
   case_eq (has_augmentation c); intros Ea; rewrite Ea in Haug.
-  - unfold lsda_ok in Hls. rewrite Ea in Hls. cbn [negb orb] in Hls. apply bool_eqb_iff in Hls.
-    destruct (dbg && negb (Bool.eqb (is_some (f_lsda f)) (is_some (c_lsda_enc c)))); [discriminate|].
-    apply bind_ok_inv in Haug. destruct Haug as (d & Hd & Haug).
+  - apply bind_ok_inv in Haug. destruct Haug as (d & Hd & Haug).
     apply with_aug_len_inv in Haug. destruct Haug as [Hdl ->].
     assert (Hd10 : (length d <= 10)%nat).
     { destruct (f_lsda f); [destruct (c_lsda_enc c)|].
@@ -2937,8 +2896,7 @@ Definition asz_ok (a : N) : Prop := a = 1 \/ a = 2 \/ a = 4 \/ a = 8.
 
 Lemma reads_back_of_tiled dbg be eh cies fdes :
   Forall (fun c => cie_wf c = true /\ asz_ok (c_asize c)) cies ->
-  Forall (fun p => fde_wf (snd p) = true /\
-                   forall c, nth_error cies (fst p) = Some c -> lsda_ok c (snd p) = true) fdes ->
+  Forall (fun p => fde_wf (snd p) = true) fdes ->
   forall chunks pos placed,
     pos + len (concat (map snd chunks)) < 18446744073709551616 ->
     Forall (fun p => snd p <= pos) placed ->
@@ -2965,10 +2923,8 @@ Proof.
     assert (Hcw : cie_wf c = true /\ asz_ok (c_asize c)).
     { rewrite Forall_forall in Hc. apply Hc. eapply nth_error_In. exact Hn. }
     destruct Hcw as [Hcw Hca].
-    assert (Hfw : fde_wf f = true /\ lsda_ok c f = true).
-    { rewrite Forall_forall in Hf. destruct (Hf (idx, f)) as [Hf1 Hf2]; [eapply nth_error_In; exact Hk|].
-      split; [exact Hf1|]. apply Hf2. exact Hn. }
-    destruct Hfw as [Hfw Hls].
+    assert (Hfw : fde_wf f = true).
+    { rewrite Forall_forall in Hf. apply (Hf (idx, f)). eapply nth_error_In. exact Hk. }
     destruct (cie_wf_parts c Hcw) as (_ & Hcaf & Hdaf & _).
     pose proof (fde_wf_parts f Hfw) as Hins.
     assert (Hcoff : coff <= pos).
@@ -2976,7 +2932,7 @@ Proof.
       cbn [lookup] in Hlk. inversion Hpl as [|x l Hx Hl]; subst. destruct (Nat.eqb idx i).
       - injection Hlk as <-. exact Hx.
       - apply IHp; assumption. }
-    destruct (fde_header_reads dbg be eh pos coff c f b Hcw Hfw Hca ltac:(lia) Hcoff Hls Hw)
+    destruct (fde_header_reads dbg be eh pos coff c f b Hcw Hfw Hca ltac:(lia) Hcoff Hw)
       as (il & body & insns & pad & -> & Hlen & Hil & Hwi & Hnop & Hpad & Hparse).
     destruct (write_fde_insns_decodes_ext dbg be (c_caf c) (c_daf c) (f_insns f) 0 insns Hins Hcaf Hdaf eq_refl Hwi)
       as (ds & Hds & Hm).
@@ -2990,8 +2946,7 @@ Qed.
 
 Lemma table_roundtrip_pack : forall (dbg be eh : bool) (pos : N) (t : ftable) bs,
   Forall (fun c => cie_wf c = true /\ asz_ok (c_asize c)) (t_cies t) ->
-  Forall (fun p => fde_wf (snd p) = true /\
-                   forall c, nth_error (t_cies t) (fst p) = Some c -> lsda_ok c (snd p) = true) (t_fdes t) ->
+  Forall (fun p => fde_wf (snd p) = true) (t_fdes t) ->
   pos + len bs < 18446744073709551616 ->
   write_table dbg be eh pos t = Ok bs ->
   exists chunks,
@@ -3006,3 +2961,39 @@ Proof.
   rewrite <- Hb. exact Hfit.
 Qed.
 
+
+(* ------------------------------------------------------------------ *)
+(* 15. an FDE whose LSDA does not match its CIE is an error             *)
+(* ------------------------------------------------------------------ *)
+
+Lemma lsda_mismatch_never_ok dbg be eh pos coff (c : cie) (f : fde) bs :
+  fde_write dbg be eh pos coff c f = Ok bs -> lsda_ok c f = true.
+Proof.
+  intros H. unfold fde_write in H.
+  apply bind_ok_inv in H. destruct H as (ptr & _ & H).
+  apply bind_ok_inv in H. destruct H as (addrs & _ & H).
+  unfold lsda_ok.
+  destruct (Bool.eqb (is_some (f_lsda f)) (is_some (c_lsda_enc c))); [reflexivity|discriminate].
+Qed.
+
+Lemma lsda_mismatch_is_error_pack : forall (dbg be eh : bool) (pos coff : N) (c : cie) (f : fde),
+  cie_wf c = true -> is_pow2 (c_asize c) = true -> fde_wf f = true -> coff <= pos ->
+  lsda_ok c f = false ->
+  (forall bs, fde_write dbg be eh pos coff c f <> Ok bs) /\
+  fde_write dbg be eh pos coff c f <> Panic /\
+  (forall ptr addrs,
+     (if eh then let* d := chk_sub 64 dbg (pos + ilen_size (c_fmt64 c)) coff in write_udata be d 4
+      else write_udata be coff (word_size (c_fmt64 c))) = Ok ptr ->
+     (if negb (c_fde_enc c =? 0)
+      then let* a := write_eh_pointer be (pos + ilen_size (c_fmt64 c) + len ptr) (f_addr f) (c_fde_enc c) (c_asize c) in
+           let* l := write_eh_pointer_data be (f_len f) (pe_format (c_fde_enc c)) (c_asize c) in Ok (a ++ l)
+      else let* a := write_address be (f_addr f) (c_asize c) in
+           let* l := write_udata be (f_len f) (c_asize c) in Ok (a ++ l)) = Ok addrs ->
+     fde_write dbg be eh pos coff c f = Err WInvalidAddress).
+Proof.
+  intros dbg be eh pos coff c f Hwf Hp Hf Hcoff Hls. split; [|split].
+  - intros bs E. apply lsda_mismatch_never_ok in E. congruence.
+  - apply fde_write_np; assumption.
+  - intros ptr addrs Hptr Haddrs. unfold fde_write. cbv zeta. rewrite Hptr. cbn [bind]. rewrite Haddrs. cbn [bind].
+    unfold lsda_ok in Hls. rewrite Hls. reflexivity.
+Qed.
